@@ -30,10 +30,13 @@ var apiTexts = map[string]string{
 	"usesT":    `{"r": @t, "s": [@t, @t]}`,
 	"typeT":    `"str" // {minLength: 1}`,
 	// contents whose OpenAPI conversion walks nested rule values (or rule-sets with format types, enum, allOf-free objects)
-	"orset":  `"2021-01-02T07:23:12+03:00" // {or: [{type: "datetime"}, {type: "integer", min: 1}, "email"]}`,
-	"rich":   "{ // {additionalProperties: \"string\"}\n  \"e\": \"x\", // {enum: [\"x\", 1, null]}\n  \"d\": \"2021-12-31\", // {type: \"date\", optional: true}\n  \"u\": [ // {minItems: 1}\n    \"550e8400-e29b-41d4-a716-446655440000\" // {type: \"uuid\"}\n  ],\n  \"c\": @t | @u\n}",
-	"typeU":  `12.5 // {type: "decimal", precision: 1, nullable: true}`,
-	"big":    apiBigText(),
+	"orset": `"2021-01-02T07:23:12+03:00" // {or: [{type: "datetime"}, {type: "integer", min: 1}, "email"]}`,
+	"rich":  "{ // {additionalProperties: \"string\"}\n  \"e\": \"x\", // {enum: [\"x\", 1, null]}\n  \"d\": \"2021-12-31\", // {type: \"date\", optional: true}\n  \"u\": [ // {minItems: 1}\n    \"550e8400-e29b-41d4-a716-446655440000\" // {type: \"uuid\"}\n  ],\n  \"c\": @t | @u\n}",
+	"typeU": `12.5 // {type: "decimal", precision: 1, nullable: true}`,
+	"big":   apiBigText(),
+	// texts without a value: the load succeeds and leaves an empty schema behind
+	"blank":   " \n",
+	"comment": "# nothing but a user comment",
 }
 
 func apiBigText() string {
@@ -199,7 +202,7 @@ func apiDefectSources(content string, regs []string) int {
 	}
 	for _, c := range all {
 		switch c {
-		case "badscan", "badrule", "badvalue":
+		case "badscan", "badrule", "badvalue", "blank", "comment":
 			n++
 		case "usesT":
 			if !hasT {
